@@ -9,6 +9,7 @@ package combinator
 import (
 	"sync/atomic"
 
+	"github.com/opsidian/parsley/ast"
 	"github.com/opsidian/parsley/data"
 	"github.com/opsidian/parsley/parser"
 	"github.com/opsidian/parsley/parsley"
@@ -30,6 +31,12 @@ func Memoize(p parsley.Parser) parser.Func {
 
 		node, cp, err := p.Parse(ctx, leftRecCtx.Inc(parserIndex), pos)
 		leftRecCtx = leftRecCtx.Filter(cp)
+
+		// The cached list is handed to every caller asking at this position. Clip its
+		// capacity, so a caller appending to it can't write into a shared backing array.
+		if nl, ok := node.(ast.NodeList); ok {
+			node = nl[:len(nl):len(nl)]
+		}
 
 		res := &parsley.Result{
 			LeftRecCtx:        leftRecCtx,
